@@ -614,6 +614,85 @@ def gen_map(lines):
 
 
 GENERATORS.append(("Map", gen_map))
+# ------------------------------------------------------------------ de.rs float tables (C08)
+def rust_cond_to_lean(expr, names):
+    """translate a small Rust boolean expression over naturals (identifiers in `names`, integer
+    literals, / % comparisons && || parentheses) into a Lean `Bool` term; None if anything else occurs"""
+    toks = re.findall(r"\$?[A-Za-z_][A-Za-z_0-9]*|\d+|>=|<=|==|!=|&&|\|\||[()<>/%*+-]", expr)
+    if "".join(toks) != re.sub(r"\s+", "", expr): return None
+    out = []
+    for t in toks:
+        if t in names: out.append(names[t])
+        elif t.isdigit(): out.append(t)
+        elif t in ("/", "%", "(", ")", "*", "+"): out.append(t)
+        elif t in (">=", "<=", "<", ">", "==", "!="):
+            out.append({">=": "≥", "<=": "≤", "==": "=", "!=": "≠"}.get(t, t))
+        elif t in ("&&", "||"): out.append(t)
+        else: return None
+    # every comparison becomes `decide (…)`: split on && / || / parens at top level is not needed for
+    # this shape — wrap each maximal comparison chunk
+    s = " ".join(out)
+    parts = re.split(r"(\&\&|\|\||\(|\))", s)
+    res = []
+    for p in parts:
+        q = p.strip()
+        if q in ("&&", "||", "(", ")", ""): res.append(q)
+        else: res.append("decide (%s)" % q)
+    return " ".join(x for x in res if x)
+
+
+def gen_pow10(lines):
+    t = src("de.rs")
+    # --- POW10: literals as written, each must have the form 1e<index>
+    m = re.search(r'#\[cfg\(not\(feature\s*=\s*"float_roundtrip"\)\)\]\s*static\s+POW10\s*:\s*\[\s*f64\s*;\s*(\d+)\s*\]\s*=\s*\[(.*?)\];', t, re.S)
+    exps, declared = [], 0
+    if not m:
+        miss("pow10.table", "static POW10: [f64; N] = […] (non-float_roundtrip) not found")
+    else:
+        declared = int(m.group(1))
+        body = re.sub(r"//[^\n]*", "", m.group(2))
+        for lit in [x.strip() for x in body.split(",") if x.strip()]:
+            mm = re.fullmatch(r"1e(\d+)", lit)
+            if not mm:
+                miss("pow10.table.entry", "POW10 entry %r is not of the form 1e<digits>" % lit); exps.append(0)
+            else:
+                exps.append(int(mm.group(1)))
+    lines.append("/-- `POW10` of de.rs (non-float_roundtrip): entry `i` is the literal `1e<pow10Exps[i]>`, as written -/")
+    lines.append("def pow10Exps : List Nat := [%s]" % ", ".join(str(e) for e in exps))
+    lines.append("/-- the declared array length `[f64; N]` -/")
+    lines.append("def pow10Declared : Nat := %d" % declared)
+    # --- f64_from_parts constants
+    body = fn_body(t, r'#\[cfg\(not\(feature\s*=\s*"float_roundtrip"\)\)\]\s*fn f64_from_parts\b[^{]*\{')
+    big, step = 0, 0
+    if body is None:
+        miss("pow10.from_parts", "non-roundtrip f64_from_parts not found")
+    else:
+        mm = re.search(r"f\s*/=\s*1e(\d+)\s*;\s*exponent\s*\+=\s*(\d+)\s*;", body)
+        if not mm: miss("pow10.from_parts.step", "`f /= 1e<N>; exponent += <M>;` not found")
+        else: big, step = int(mm.group(1)), int(mm.group(2))
+        if not re.search(r"POW10\.get\(\s*exponent\.wrapping_abs\(\)\s+as\s+usize\s*\)", body):
+            miss("pow10.from_parts.index", "`POW10.get(exponent.wrapping_abs() as usize)` not found in f64_from_parts")
+    lines.append("/-- `f /= 1e<fromPartsBigExp>; exponent += <fromPartsStep>;` in f64_from_parts -/")
+    lines.append("def fromPartsBigExp : Nat := %d" % big)
+    lines.append("def fromPartsStep : Nat := %d" % step)
+    # --- overflow! macro body, translated token by token
+    mm = re.search(r"macro_rules!\s*overflow\s*\{\s*\(\$a:ident\s*\*\s*10\s*\+\s*\$b:ident\s*,\s*\$c:expr\)\s*=>\s*\{\s*match\s+\$c\s*\{\s*c\s*=>\s*(.*?),\s*\}\s*\}\s*;\s*\}", t, re.S)
+    term = None
+    if mm:
+        term = rust_cond_to_lean(mm.group(1).strip(), {"$a": "a", "$b": "b", "c": "c"})
+    if term is None:
+        miss("pow10.overflow_macro", "overflow!($a * 10 + $b, $c) body not found or not translatable")
+        term = "false"
+    lines.append("/-- `overflow!($a * 10 + $b, $c)`: the macro body `%s`, translated token by token -/" % (mm.group(1).strip() if mm else "?"))
+    lines.append("def overflowMacro (a b c : Nat) : Bool := %s" % term)
+    # the two call-site bounds
+    sites = re.findall(r"overflow!\(\s*(\w+)\s*\*\s*10\s*\+\s*digit\s*,\s*(\w+)::MAX\s*\)", t)
+    want = {("significand", "u64"), ("exp", "i32")}
+    if set(sites) != want:
+        miss("pow10.overflow_sites", "overflow! call sites are %r, expected significand/u64::MAX and exp/i32::MAX" % (sorted(set(sites)),))
+
+
+GENERATORS.append(("Pow10", gen_pow10))
 
 
 def main():
